@@ -19,12 +19,15 @@ Refused(r, canon) ==
   ELSE "ok"
 \* a source that is not a byte slice (nil, a string, an integer): no panic; refused, taken as NULL, or a geometry (then in r.wf)
 OtherSrc(v) == v \in {"error", "null", "geom"}
-SqlEntry(e, g, ndr, digest) ==
+\* Value() takes no byte order: the standard encoding in EITHER order is "the same encoding" (std = {NDR image, XDR image}).
+\* A wrapper of the wrong type "reports an error": any error ("wrongtype" = wkbcommon.ErrUnexpectedType, "error" = any other),
+\* not a panic, not success, not NULL.
+SqlEntry(e, g, std, digest) ==
   /\ OtherSrc(e.str) /\ OtherSrc(e.int) /\ OtherSrc(e.nil)
   /\ IF e.w = "ANY" \/ e.w = g.t
-     THEN /\ e.scan = "none" /\ e.valok /\ e.val = ndr /\ e.d = digest            \* the NDR encoding is accepted ...
-          /\ e.xscan = "none" /\ e.xvalok /\ e.xval = ndr /\ e.xd = digest        \* ... and so is the XDR encoding
-     ELSE e.scan = "wrongtype" /\ e.xscan = "wrongtype"
+     THEN /\ e.scan = "none" /\ e.valok /\ e.val \in std /\ e.d = digest            \* the NDR encoding is accepted ...
+          /\ e.xscan = "none" /\ e.xvalok /\ e.xval \in std /\ e.xd = digest        \* ... and so is the XDR encoding
+     ELSE e.scan \in {"wrongtype", "error"} /\ e.xscan \in {"wrongtype", "error"}
 
 Clause(r) ==
   LET g == r.case.g  fl == r.case.flavor
@@ -33,10 +36,12 @@ Clause(r) ==
       \* reads from them, and the stream / hex / SQL variants by their agreement with Marshal
       open == fl = "ewkb" /\ HasMemberSrid(g)
       canon == Canon(g, fl)
-      M(x) == IF open THEN StripM(x) ELSE x
+      \* a decoded tree is ALWAYS compared without its members' SRIDs (only the outermost SRID is promised; canon has none)
+      M(x) == IF open THEN StripM(x) ELSE StripMS(x)
       want == IF open THEN r.enc.bytes ELSE Concrete(sym, r.img)
       n == Len(want)
       ndr == IF open THEN r.ndr ELSE Concrete(Enc(g, "NDR", fl), r.img)
+      xdr == IF open THEN r.xdr ELSE Concrete(Enc(g, "XDR", fl), r.img)
       RefReads(bs) == LET d == Decode(bs, DFlavor(fl), fl = "wkbnan", <<-1, -1, -1>>) IN
                       d.ok /\ d.pos = Len(bs) /\ M(d.g) = ConcG(canon, r.img) IN
   CASE r.ev # "ok" -> r.ev
@@ -49,7 +54,7 @@ Clause(r) ==
     [] M(r.dec.g) # canon -> "decode-differs"
     [] r.dec.consumed # n -> "decode-consumed"
     [] ~RefReads(want) -> (IF open THEN "bytes-differ:member-srid" ELSE "reference-decoder-disagrees")
-    [] open /\ ~RefReads(ndr) -> "bytes-differ:member-srid"
+    [] open /\ ~(RefReads(ndr) /\ RefReads(xdr)) -> "bytes-differ:member-srid"
     [] \E k \in DOMAIN r.wr : r.wr[k].err # (r.wr[k].f < n) -> "writer-error-not-reported"
     [] \E k \in DOMAIN r.wr : r.wr[k].n # Min2(r.wr[k].f, n) -> "writer-byte-count"
     [] \E k \in DOMAIN r.wrs : r.wrs[k].bytes # SubSeq(want, 1, Min2(r.wrs[k].f, n)) -> "writer-not-a-prefix"
@@ -62,9 +67,9 @@ Clause(r) ==
     \* (the letter case of the hex digits is not prescribed: both cases must DEcode, next clause)
     [] ~(r.hex.ok /\ r.hex.nib = Nibbles(want)) -> "hex-encode"
     [] r.hex.dlow # r.digest \/ r.hex.dup # r.digest -> "hex-decode"
-    [] \E k \in DOMAIN r.sql : ~SqlEntry(r.sql[k], g, ndr, r.digest) -> "sql-wrapper"
-    \* Value() of a wrapper populated directly (not by Scan) is the NDR encoding too
-    [] \E k \in DOMAIN r.sqlv : ~(r.sqlv[k].ev = "ok" /\ r.sqlv[k].ok /\ r.sqlv[k].val = ndr) -> "sql-value"
+    [] \E k \in DOMAIN r.sql : ~SqlEntry(r.sql[k], g, {ndr, xdr}, r.digest) -> "sql-wrapper"
+    \* Value() of a wrapper populated directly (not by Scan) is the standard encoding too (either byte order)
+    [] \E k \in DOMAIN r.sqlv : ~(r.sqlv[k].ev = "ok" /\ r.sqlv[k].ok /\ r.sqlv[k].val \in {ndr, xdr}) -> "sql-value"
     [] OTHER -> "ok"
 VARIABLES i, bad
 Init == i = 1 /\ bad = 0
